@@ -6,9 +6,10 @@ if ! diff -q /tmp/confirm_$$.diff patch.diff >/dev/null; then echo "NOTE: worktr
 rm -f /tmp/confirm_$$.diff
 run_demo() { (cd demo && if grep -q '^\[\[test\]\]\|#\[test\]' -r src tests Cargo.toml 2>/dev/null && ! [ -f src/main.rs ]; then CARGO_TARGET_DIR=$wt/demo/target cargo test --offline; else CARGO_TARGET_DIR=$wt/demo/target cargo run --offline; fi) > $1 2>&1; echo $?; }
 echo "demo with patch: exit $(run_demo $wt/confirm_demo_patched.log)"
-git stash -q
+# (no `git stash`: the stash is shared by all worktrees of a repository)
+git apply -R patch.diff || { echo "cannot reverse patch.diff"; exit 2; }
 echo "demo without patch: exit $(run_demo $wt/confirm_demo_clean.log)"
-git stash pop -q
+git apply patch.diff
 CARGO_TARGET_DIR=$wt/target cargo test --workspace --offline --no-fail-fast > $wt/confirm_suite.log 2>&1
 grep "^test result" $wt/confirm_suite.log | awk '{p+=$4; f+=$6} END {print "suite with patch: passed", p, "failed", f}'
 grep "^test .*FAILED" $wt/confirm_suite.log
